@@ -65,4 +65,18 @@ theorem kernel_checked_adjust_coeffs (prof : Profile) (x : Int) (p : Nat) (y : I
     Gen.K.checked_adjust_coeffs prof x p y q = .ok (checkedAdjustCoeffs x p y q) :=
   Kernels.checked_adjust_coeffs_eq prof x p y q hp hq
 
+/-- the integer forms of `==` and `partial_cmp` (cmp.rs macro bodies instantiated with `u64` / `i64`), as translated on this run -/
+theorem kernel_decimal_eq_uint (prof : Profile) (d : Dec) (i : Nat) :
+    Gen.K.decimal_eq_uint prof d i = .ok (decEqInt false d i) := Kernels.decimal_eq_uint_eq prof d i
+theorem kernel_decimal_eq_sint (prof : Profile) (d : Dec) (i : Int) :
+    Gen.K.decimal_eq_sint prof d i = .ok (decEqInt true d i) := Kernels.decimal_eq_sint_eq prof d i
+theorem kernel_decimal_cmp_sint (prof : Profile) (d : Dec) (i : Int) :
+    Gen.K.decimal_cmp_sint prof d i = .ok (partialCmpDecInt true d i) := Kernels.decimal_cmp_sint_eq prof d i
+theorem kernel_sint_cmp_decimal (prof : Profile) (i : Int) (d : Dec) :
+    Gen.K.sint_cmp_decimal prof i d = .ok (partialCmpIntDec true i d) := Kernels.sint_cmp_decimal_eq prof i d
+theorem kernel_decimal_cmp_uint (prof : Profile) (d : Dec) (i : Nat) :
+    Gen.K.decimal_cmp_uint prof d i = .ok (partialCmpDecInt false d i) := Kernels.decimal_cmp_uint_eq prof d i
+theorem kernel_uint_cmp_decimal (prof : Profile) (i : Nat) (d : Dec) :
+    Gen.K.uint_cmp_decimal prof i d = .ok (partialCmpIntDec false i d) := Kernels.uint_cmp_decimal_eq prof i d
+
 end Fpdec.Props.C08
